@@ -86,6 +86,14 @@ type World struct {
 	Ver     int64
 	Model   map[string]string
 	Bumped  bool
+	// states saved into the lower store so far (root + content): later operations of the layer above never change them
+	Flushed []flushed
+}
+
+type flushed struct {
+	root  []byte
+	ver   int64
+	model map[string]string
 }
 
 func NewWorld(kind StoreKind, version int64) *World {
@@ -186,6 +194,13 @@ func (w *World) Apply(o Op) (fail string) {
 			return fmt.Sprintf("SaveChanges: %v", err)
 		}
 		w.T = util.NewMerklePatriciaTrie(util.NewLevelNodeDB(util.NewMemoryNodeDB(), w.Base, false), util.Sequence(w.Ver), before, statecache.NewEmpty())
+		if n := len(w.Flushed); n == 0 || !bytes.Equal(w.Flushed[n-1].root, before) {
+			m := make(map[string]string, len(w.Model))
+			for k, v := range w.Model {
+				m[k] = v
+			}
+			w.Flushed = append(w.Flushed, flushed{root: before, ver: w.Ver, model: m})
+		}
 	case 'B':
 		w.Ver++
 		w.Bumped = true
@@ -234,6 +249,20 @@ func (w *World) Observe(paths []string) (fail string) {
 			}
 			if !ok && err != util.ErrValueNotPresent {
 				return fmt.Sprintf("a second trie opened on the same store at the same root: lookup(%q) = %q, %v; want 'value not present'", p, v, err)
+			}
+		}
+	}
+	// every state saved into the lower store earlier still reads its own content from that store alone
+	for i, fl := range w.Flushed {
+		t3 := util.NewMerklePatriciaTrie(w.Base, util.Sequence(fl.ver), fl.root, statecache.NewEmpty())
+		for _, p := range paths {
+			v, err := t3.GetNodeValueRaw(util.Path(p))
+			want, ok := fl.model[p]
+			if ok && (err != nil || string(v) != want) {
+				return fmt.Sprintf("the state saved to the lower store by save %d (root %x) is no longer what it was: lookup(%q) on that store = %q, %v; it held %q", i+1, fl.root, p, v, err, want)
+			}
+			if !ok && err != util.ErrValueNotPresent {
+				return fmt.Sprintf("the state saved to the lower store by save %d (root %x) is no longer what it was: lookup(%q) on that store = %q, %v; it held nothing there", i+1, fl.root, p, v, err)
 			}
 		}
 	}
